@@ -7,7 +7,7 @@ HOOKS = {
     "add_only": True,
 }
 ENGINES = [
-    {"name": "grid", "path": "/verif/mc/props", "serves_properties": ["C02", "C04", "C05", "C06", "C07"],
+    {"name": "grid", "path": "/verif/mc/props", "serves_properties": ["C02", "C04", "C05", "C06", "C07", "C17"],
      "kind_free_text": "complete Cartesian products of finite input alphabets executed on the real code and compared with an explicit oracle or metamorphic relation"},
     {"name": "fault", "path": "/verif/mc/props/C08.py", "serves_properties": ["C08"],
      "kind_free_text": "fault-point enumerator: public-API fault menu x position and sys.settrace call-level injection, snapshot oracle"},
@@ -123,5 +123,16 @@ CHECKS["C02"] = dict(
          "attributes are checked through 6 assignment forms x 5 values x 7 classes.",
     note="On the surface band (1e-9 relative) only the consistency relations are demanded, not a particular inside decision. Rows with "
          "non-finite outputs are left to C15. TriangularMesh/Tetrahedron inside predicate assumes convex test bodies.")
+CHECKS["C17"] = dict(
+    engine="grid", level="exploration", design_ref="DESIGN.md §4 C17",
+    technique="bounded-exhaustive enumeration of a generated value grammar x every documented attribute x constructor/setter/copy on the real classes against a specification table",
+    text="~300 grammar values (scalars of 11 kinds, sequences of rank 1-4 with axis lengths 0-6 as list/tuple/float ndarray/int ndarray, "
+         "mutated and ragged values, 13 CylinderSegment geometries incl. valid ranges beyond +-360 and invalid ones straddling 0, "
+         "Rotation objects, field functions with wrong signature/shape/type) are assigned to each of 28 (class, attribute) pairs through "
+         "constructor, setter and copy(attr=value). Reject => MagpylibBadUserInput/MissingInput at that statement and an unchanged "
+         "object; accept => float read-back equal to the input, no shared memory, later mutation of the caller's array invisible, "
+         "constructor and setter agree, None reads back None, and a later getB is finite or asks for missing input.",
+    note="The spec table in mc/props/C17.py is my reading of the documented formats; zero sizes, r1==r2, phi1==phi2 are excluded as "
+         "ambiguous (counted in the evidence); numeric strings, bools, NaN/inf, None entries are not generated.")
 _todo = "check not built yet in this session (planned, see DESIGN.md §4); nothing is claimed for it"
 NOT_APPLICABLE = [{"property_id": f"C{i:02d}", "reason": _todo} for i in range(1, 21) if f"C{i:02d}" not in CHECKS]
